@@ -450,6 +450,68 @@ def immutable_writes(case, ctx):
 
 
 # ----------------------------------------------------------------------------
+@clause('method_forms',
+        strategy=lambda: st.tuples(
+            L.case_strategy(allow=('counter', 'stat', 'sow', 'tanh',
+                                   'shared')), filter_strategy()),
+        quick=250, thorough=12000, quick_shards=4,
+        rule='the entry point given to init / init_with_output / apply as '
+        'method=None, the string "__call__", the unbound function '
+        'Class.__call__, or a second method (by name and as a function, with '
+        'a keyword argument): the default spellings return bit-identical '
+        'outputs, variables and updates; the second method returns what its '
+        'body computes from __call__; inputs stay untouched; non-trivial = '
+        'program has state and the filter is neither True nor False')
+def method_forms(case, ctx):
+  case, filt = case
+  case = effective_case(case)
+  mod = L.make_root(case)
+  x = L.make_input(case)
+  key = jax.random.key(case['seed'])
+  mutable = build_filter(filt)
+  cls = type(mod)
+  with sut('init'):
+    y0, v0 = mod.init_with_output(key, x)
+  base = {c: v0[c] for c in v0 if c not in ('intermediates', 'aux',
+                                            'perturbations')}
+  s_mod, s_x, s_v = snap(mod), snap(x), snap(base)
+  with sut('apply'):
+    r0 = mod.apply(base, x, mutable=mutable)
+  def split(r):
+    return (r[0], r[1]) if mutable is not False else (r, {})
+  y_ref, u_ref = split(r0)
+  for how, meth in (('str', '__call__'), ('fn', cls.__call__)):
+    with sut(f'init(method={how})'):
+      y1, v1 = mod.init_with_output(key, x, method=meth)
+      v1b = mod.init(key, x, method=meth)
+    require(out_eq(y0, y1) and tree_eq(v0, v1) and tree_eq(v0, v1b),
+            lambda: f'init with method given as {how} differs from the '
+            'default entry point')
+    with sut(f'apply(method={how})'):
+      y, u = split(mod.apply(base, x, mutable=mutable, method=meth))
+    require(out_eq(y_ref, y) and tree_eq(u_ref, u), lambda: 'apply with '
+            f'method given as {how} differs from the default entry point')
+  for how, meth in (('str', 'scaled'), ('fn', cls.scaled)):
+    with sut(f'apply(method=scaled as {how})'):
+      y, u = split(mod.apply(base, x, mutable=mutable, method=meth))
+      y3, u3 = split(mod.apply(base, x, mutable=mutable, method=meth, k=3.0))
+      v2 = mod.init(key, x, method=meth)
+    require(out_eq(np.asarray(y_ref) * 2.0, y) and tree_eq(u_ref, u),
+            lambda: f'apply(method=scaled given as {how}) is not 2 * '
+            '__call__ with the same updates')
+    require(out_eq(np.asarray(y_ref) * 3.0, y3) and tree_eq(u_ref, u3),
+            lambda: f'apply(method=scaled given as {how}, k=3.0) is not 3 * '
+            '__call__ with the same updates')
+    require(tree_eq(v0, v2), lambda: f'init(method=scaled given as {how}) '
+            'creates different variables')
+  require(snap(mod) == s_mod and snap(x) == s_x and snap(base) == s_v,
+          'an entry-point form changed the module, the input or the variables')
+  stateful = L.uses(case['prog'], ('counter', 'stat', 'sow'), case)
+  ctx.note(labels=['stateful' if stateful else 'stateless'],
+           nontrivial=stateful and filt['t'] not in ('true', 'false'))
+
+
+# ----------------------------------------------------------------------------
 @clause('observation_inert',
         strategy=lambda: st.tuples(
             L.case_strategy(allow=('counter', 'stat', 'sow', 'perturb', 'tanh',
